@@ -19,7 +19,8 @@ def s0(x):
 def off(env, symmetry):
     """each estimate is exactly zero (value and partials) when its option is off"""
     s = surface(name="wing", nx=2, ny=3, symmetry=symmetry, with_viscous=False, with_wave=False)
-    v = env.comp("v", lambda: cls("aerodynamics.viscous_drag.ViscousDrag")(surface=s, with_viscous=False))
+    # the documented switch is the surface dictionary's "with_viscous" / "with_wave" (no component option is passed)
+    v = env.comp("v", lambda: cls("aerodynamics.viscous_drag.ViscousDrag")(surface=s))
     w = env.comp("w", lambda: cls("aerodynamics.wave_drag.WaveDrag")(surface=s))
     for h, out in ((v, "CDv"), (w, "CDw")):
         ins = h.inputs()
@@ -63,6 +64,20 @@ def wave(env, ny, symmetry):
             dCL = S.diff(cdw, S.var_id(CL))
             env.eq("C18", "dCDw/dMach == 4 K (M - Mcrit)^3  (> 0 on the supercritical path)", dM, 4 * K * w ** 3)
             env.eq("C18", "dCDw/dCL == 4 K (M - Mcrit)^3 / (10 cos^3)  (> 0 for positive average cos(sweep))", dCL * (10 * cosav ** 3), 4 * K * w ** 3)
+    # on a live component last evaluated at another Mach number / lift (e.g. above the critical Mach number): the value is
+    # again that of a fresh evaluation
+    hl = env.comp("w.live", h.factory)
+    insP = hl.inputs(tag="P.")
+
+    def revisit():
+        st = hl.out_store()
+        hl.compute(insP, outs=st)
+        return hl.compute(ins, outs=st)["CDw"]
+    hf = env.comp("w.fresh2", h.factory)
+    for path, cd_live in env.explore(revisit):
+        tag = (" @path(%s)" % ";".join("T" if b else "F" for c, b in path)) if path else ""
+        env.eq("C18", "wave drag after an earlier evaluation at another Mach number and lift equals that of a fresh evaluation" + tag,
+               cd_live, hf.compute(ins)["CDw"])
     env.assumptions.add("wave drag monotonicity: average cos(sweep) > 0 (sweep below 90 degrees)")
 
 
